@@ -441,6 +441,12 @@ class Simulator(EventProducer, SimulatorInterface, Generic[TIME]):
         """Runs the simulator up to a certain time; any events at that time, 
         or the solving of the differential equation at that timestep, 
         will not yet be executed."""
+        if self._replication is not None:
+            if stop_time < self._simulator_time:
+                raise DSOLError("cannot run up to a time in the past")
+            if stop_time > self._replication.end_sim_time:
+                # never run beyond the end of the replication
+                return self.start()
         self._run_until_time = stop_time
         self._run_until_including = False
         self._start_impl()
@@ -449,6 +455,12 @@ class Simulator(EventProducer, SimulatorInterface, Generic[TIME]):
         """Runs the simulator up to a certain time; all events at that time, 
         or the solving of the differential equation at that timestep, 
         will be executed."""
+        if self._replication is not None:
+            if stop_time < self._simulator_time:
+                raise DSOLError("cannot run up to a time in the past")
+            if stop_time > self._replication.end_sim_time:
+                # never run beyond the end of the replication
+                return self.start()
         self._run_until_time = stop_time
         self._run_until_including = True
         self._start_impl()
